@@ -120,6 +120,10 @@ func pathBody(r *rand.Rand, item int, mode int) string {
 	nt := []string{"NORMAL", "PARENT", "CREATE", "DELETE", "UNKNOWN"}[r.Intn(5)]
 	b := fmt.Sprintf(`item=%d name="/%s/%s" inode=%d dev=08:%02d mode=0%o ouid=%d ogid=%d rdev=%02d:%02d obj=u_%s:object_r:t_%s:s0 nametype=%s cap_fp=0 cap_fi=0 cap_fe=0 cap_fver=0`,
 		item, coWord(r), coWord(r), 1+r.Intn(1000000), r.Intn(20), mode, r.Intn(2000), r.Intn(2000), r.Intn(90), r.Intn(90), coWord(r), coWord(r), nt)
+	if r.Intn(4) == 0 { // names relative to the cwd, as the kernel records them
+		rel := []string{coWord(r) + "/" + coWord(r), "./" + coWord(r), coWord(r), "../" + coWord(r), "."}[r.Intn(5)]
+		b = regexp.MustCompile(` name="[^"]*"`).ReplaceAllString(b, ` name="`+rel+`"`)
+	}
 	if r.Intn(6) == 0 { // a PATH record need not carry every field (a name-only or mode-less record of an older kernel)
 		drop := []string{"mode", "inode", "rdev", "ouid", "ogid", "name"}[r.Intn(6)]
 		b = regexp.MustCompile(` `+drop+`=\S+`).ReplaceAllString(b, "")
